@@ -692,7 +692,7 @@ class Builder:
         Returns None when the call is not a candidate (nothing emitted)."""
         if frame.depth >= self.max_depth or not self.dangling:
             return None
-        res = self.r.resolve_call(e, frame.ctx)
+        res = self._resolve(e, frame)
         if len(res.targets) != 1 or res.externals or res.unresolved or \
                 res.ctor_of:
             return None
@@ -806,7 +806,7 @@ class Builder:
             self._expr(k.value, frame)
         if not self.dangling:
             return
-        res = self.r.resolve_call(e, ctx)
+        res = self._resolve(e, frame)
         inl: List[Target] = []
         rest: List[Target] = []
         if frame.depth < self.max_depth:
@@ -851,6 +851,47 @@ class Builder:
                 self._raise_from(n, tok)
             ends.append((n, 'next'))
         self.dangling = ends
+
+    def _resolve(self, e: ast.Call, frame) -> Resolution:
+        """resolve_call, plus calls of a parameter of an inlined callee
+        that was bound to a function at the call site (a nested function of
+        the caller, or a bound method such as self.client.ehlo)"""
+        res = self.r.resolve_call(e, frame.ctx)
+        if (res.targets or res.externals) and not res.unresolved:
+            return res
+        f = e.func
+        if not (isinstance(f, ast.Name) and f.id in frame.bindings and
+                f.id in frame.ctx.func.params):
+            return res
+        from .facts import _stores
+        if _stores(frame.ctx.func)[0].get(f.id):
+            return res                       # parameter re-bound
+        arg, afr = frame.bindings[f.id]
+        # chase parameters that were themselves passed through
+        hops = 0
+        while isinstance(arg, ast.Name) and arg.id in afr.bindings and \
+                arg.id in afr.ctx.func.params and hops < 4:
+            arg, afr = afr.bindings[arg.id]
+            hops += 1
+        if isinstance(arg, ast.Name):
+            nf = afr.ctx.func.nested.get(arg.id)
+            if nf is not None:
+                out = Resolution()
+                out.targets = [Target(nf, afr.ctx.self_cls,
+                                      recv_is_self=True)]
+                return out
+            return res
+        if isinstance(arg, ast.Attribute):
+            synth = ast.Call(func=arg, args=list(e.args),
+                             keywords=list(e.keywords))
+            ast.copy_location(synth, e)
+            try:
+                r2 = self.r.resolve_call(synth, afr.ctx)
+            except Exception:
+                return res
+            if r2.targets or r2.externals:
+                return r2
+        return res
 
     def _inline(self, e: ast.Call, t: Target, frame, res, thread=False):
         same = frame.self_same and t.recv_is_self
